@@ -132,6 +132,9 @@ func optTermOf(o execution.Option) string {
 	var tterm string
 	switch o.Type {
 	case execution.OptionTypeBool:
+		if o.Bool == nil {
+			o.Bool = &execution.BoolOptionConfig{}
+		}
 		fc := map[execution.BoolOptionFormat]string{execution.BoolOptionFormatTrueFalse: "BTrueFalse", execution.BoolOptionFormatOneZero: "BOneZero", execution.BoolOptionFormatYesNo: "BYesNo", execution.BoolOptionFormatCustom: "BCustom"}[o.Bool.Format]
 		if fc == "" {
 			fc = "BUnknown"
